@@ -568,3 +568,351 @@ theorem full_iff (ds : List Dgram) (p : Packet) (ps : List (Nat × Nat))
     rw [reject_iff]
     simp only [full, Bool.or_eq_true, decide_eq_true_eq] at hf
     omega
+
+/-! ### SterilePacket -/
+
+/-- extent and command of the writer datagrams, as `append_writer` records them -/
+def wpos (base : Nat) : List (Bool × Dgram) → List (Nat × Nat × Nat)
+  | [] => []
+  | (w, d) :: ops => (if w then [(base, base + dgSize d, d.cmd)] else []) ++ wpos (base + dgSize d) ops
+
+/-- position of every datagram's working counter with its preset, as `append` records them -/
+def cpos (base : Nat) : List (Bool × Dgram) → List (Nat × Int)
+  | [] => []
+  | (_, d) :: ops => (base + dgSize d - 2, d.wkc) :: cpos (base + dgSize d) ops
+
+/-- the same datagrams with the command of every writer replaced by NOP -/
+def neutral (ops : List (Bool × Dgram)) : List Dgram :=
+  ops.map fun o => if o.1 then { o.2 with cmd := cmd_NOP } else o.2
+
+def KeysBelow (s : Sterile) : Prop := ∀ e ∈ s.counters, e.1 + 2 ≤ s.pkt.size
+
+theorem dictSet_fresh (m : List (Nat × Int)) (k : Nat) (v : Int) (h : ∀ e ∈ m, e.1 ≠ k) :
+    dictSet m k v = m ++ [(k, v)] := by
+  unfold dictSet
+  have : m.any (fun e => e.1 == k) = false := by
+    rw [List.any_eq_false]
+    intro e he
+    simpa using h e he
+  simp [this]
+
+theorem sappend_some (s s1 : Sterile) (d : Dgram) (hk : KeysBelow s) (h : s.append d = some s1) :
+    (∃ pos, append s.pkt d = some (s1.pkt, pos)) ∧ s1.onTheFly = s.onTheFly ∧
+    s1.counters = s.counters ++ [(s.pkt.size + dgSize d - 2, d.wkc)] ∧
+    s1.pkt.size = s.pkt.size + dgSize d ∧ KeysBelow s1 := by
+  unfold Sterile.append at h
+  split at h
+  · cases h
+  · rename_i p pos hap
+    simp only [Option.some.injEq] at h
+    subst h
+    obtain ⟨_, _, rfl, rfl⟩ := (append_some _ _ _ _).1 hap
+    have hH := hH
+    have hfresh : ∀ e ∈ s.counters, e.1 ≠ s.pkt.size + dgSize d - 2 := by
+      intro e he
+      have := hk e he
+      simp only [dgSize]
+      omega
+    refine ⟨⟨_, hap⟩, rfl, by simp [dictSet_fresh _ _ _ hfresh], rfl, ?_⟩
+    intro e he
+    simp only [dictSet_fresh _ _ _ hfresh, List.mem_append, List.mem_singleton] at he
+    rcases he with he | rfl
+    · have := hk e he; simp only []; omega
+    · simp only [dgSize]; omega
+
+theorem sterile_gen (s s' : Sterile) (ops : List (Bool × Dgram)) (hk : KeysBelow s)
+    (h : Sterile.appendAll s ops = some s') :
+    (∃ ps, appendAll s.pkt (ops.map (·.2)) = some (s'.pkt, ps)) ∧
+    s'.onTheFly = s.onTheFly ++ wpos s.pkt.size ops ∧
+    s'.counters = s.counters ++ cpos s.pkt.size ops := by
+  induction ops generalizing s with
+  | nil => simp [Sterile.appendAll] at h; subst h; simp [appendAll, wpos, cpos]
+  | cons o ops ih =>
+    obtain ⟨w, d⟩ := o
+    unfold Sterile.appendAll at h
+    split at h
+    · cases h
+    · rename_i s2 hstep
+      cases w with
+      | false =>
+        simp only [Bool.false_eq_true, ↓reduceIte] at hstep
+        obtain ⟨⟨pos, hap⟩, h2, h3, h4, h5⟩ := sappend_some s s2 d hk hstep
+        obtain ⟨⟨ps, i1⟩, i2, i3⟩ := ih s2 h5 h
+        refine ⟨⟨pos :: ps, by simp [appendAll, hap, i1]⟩, ?_, ?_⟩
+        · simp [i2, h2, h4, wpos]
+        · simp [i3, h3, h4, cpos]
+      | true =>
+        simp only [↓reduceIte] at hstep
+        unfold Sterile.appendWriter at hstep
+        split at hstep
+        · cases hstep
+        · rename_i s1 hs1
+          simp only [Option.some.injEq] at hstep
+          subst hstep
+          obtain ⟨⟨pos, hap⟩, h2, h3, h4, h5⟩ := sappend_some s s1 d hk hs1
+          obtain ⟨⟨ps, i1⟩, i2, i3⟩ := ih _ (by exact h5) h
+          simp only [] at i1
+          refine ⟨⟨pos :: ps, by simp [appendAll, hap, i1]⟩, ?_, ?_⟩
+          · simp [i2, h2, h4, wpos]
+          · simp [i3, h3, h4, cpos]
+
+theorem set_append_cons (pre : List UInt8) (c x : UInt8) (r : List UInt8) :
+    (pre ++ c :: r).set pre.length x = pre ++ x :: r := by
+  induction pre with
+  | nil => rfl
+  | cons a pre ih => simp [ih]
+
+theorem sterilize_append (a b : List (Nat × Nat × Nat)) (bs : List UInt8) :
+    sterilize (a ++ b) bs = sterilize b (sterilize a bs) := by
+  simp [sterilize]
+
+theorem neutral_size (o : Bool × Dgram) :
+    dgSize (if o.1 then { o.2 with cmd := cmd_NOP } else o.2) = dgSize o.2 := by
+  split <;> rfl
+
+theorem sterilize_gen (n : Nat) (ops : List (Bool × Dgram)) (i : Nat) (pre post body : List UInt8)
+    (h : asmBody n i (ops.map (·.2)) = some body) :
+    ∃ body', asmBody n i (neutral ops) = some body' ∧
+      sterilize (wpos pre.length ops) (pre ++ body ++ post) = pre ++ body' ++ post := by
+  induction ops generalizing i pre body with
+  | nil => simp [asmBody] at h; subst h; exact ⟨[], by simp [neutral, asmBody], by simp [wpos, sterilize]⟩
+  | cons o ops ih =>
+    obtain ⟨w, d⟩ := o
+    simp only [List.map_cons, asmBody] at h
+    split at h
+    · rename_i hok
+      cases hb : asmBody n (i + 1) (ops.map (·.2)) with
+      | none => simp [hb] at h
+      | some body1 =>
+        simp only [hb, Option.map_some, Option.some.injEq] at h
+        subst h
+        cases w with
+        | false =>
+          have hl : (pre ++ dgBytes (decide (i < n)) d).length = pre.length + dgSize d := by
+            simp [dgBytes_length _ _ hok]
+          obtain ⟨b', hb1, hb2⟩ := ih (i + 1) (pre ++ dgBytes (decide (i < n)) d) body1 hb
+          refine ⟨dgBytes (decide (i < n)) d ++ b', ?_, ?_⟩
+          · simp only [neutral, List.map_cons, Bool.false_eq_true, ↓reduceIte, asmBody, hok]
+            simp only [neutral] at hb1
+            simp [hb1]
+          · rw [hl] at hb2
+            simp only [wpos, Bool.false_eq_true, ↓reduceIte, List.nil_append]
+            simpa using hb2
+        | true =>
+          have hok' : dgOk (decide (i < n)) { d with cmd := cmd_NOP } = true := by
+            simp only [dgOk, Bool.and_eq_true, decide_eq_true_eq] at hok ⊢
+            exact ⟨⟨⟨⟨by decide, hok.1.1.1.2⟩, hok.1.1.2⟩, hok.1.2⟩, hok.2⟩
+          have hl : (pre ++ dgBytes (decide (i < n)) { d with cmd := cmd_NOP }).length = pre.length + dgSize d := by
+            simp [dgBytes_length _ _ hok', dgSize]
+          obtain ⟨b', hb1, hb2⟩ := ih (i + 1) (pre ++ dgBytes (decide (i < n)) { d with cmd := cmd_NOP }) body1 hb
+          refine ⟨dgBytes (decide (i < n)) { d with cmd := cmd_NOP } ++ b', ?_, ?_⟩
+          · simp only [neutral, List.map_cons, ↓reduceIte, asmBody, hok']
+            simp only [neutral] at hb1
+            simp [hb1]
+          · rw [hl] at hb2
+            simp only [wpos, ↓reduceIte, sterilize_append]
+            have hset : sterilize [(pre.length, pre.length + dgSize d, d.cmd)]
+                (pre ++ (dgBytes (decide (i < n)) d ++ body1) ++ post)
+                = pre ++ (dgBytes (decide (i < n)) { d with cmd := cmd_NOP } ++ body1) ++ post := by
+              simp only [sterilize, List.foldl_cons, List.foldl_nil, dgBytes, dgHead,
+                List.append_assoc, List.cons_append, List.nil_append]
+              exact set_append_cons _ _ _ _
+            rw [hset]
+            simpa using hb2
+    · cases h
+
+/-- bookkeeping of a SterilePacket after any accepted sequence of `append`/`append_writer`
+calls: the packet is the one `Packet.append` builds, `on_the_fly` lists exactly the writer
+datagrams (first byte, end, command), `counters` maps every working-counter position to its preset -/
+theorem sterile_spec (ops : List (Bool × Dgram)) (s : Sterile)
+    (h : Sterile.appendAll Sterile.empty ops = some s) :
+    (∃ ps, appendAll Packet.empty (ops.map (·.2)) = some (s.pkt, ps)) ∧
+    s.onTheFly = wpos PACKET_HEADER ops ∧ s.counters = cpos PACKET_HEADER ops := by
+  have := sterile_gen Sterile.empty s ops (by intro e he; cases he) h
+  simpa [Sterile.empty, Packet.empty] using this
+
+theorem neutral_bodySize (ops : List (Bool × Dgram)) : bodySize (neutral ops) = bodySize (ops.map (·.2)) := by
+  induction ops with
+  | nil => rfl
+  | cons o ops ih =>
+    simp only [neutral, List.map_cons, bodySize_cons, neutral_size] at ih ⊢
+    omega
+
+/-- `sterile()` is `assemble()` of the same packet with NOP as the command of every writer
+datagram: nothing else differs -/
+theorem sterile_bytes (ops : List (Bool × Dgram)) (s : Sterile) (index et : Int) (bs : List UInt8)
+    (h : Sterile.appendAll Sterile.empty ops = some s) (hasm : assemble s.pkt index et = some bs) :
+    ∃ st, s.sterile index et = some st ∧ assemble ⟨neutral ops, s.pkt.size⟩ index et = some st := by
+  obtain ⟨⟨ps, hacc⟩, hotf, _⟩ := sterile_spec ops s h
+  obtain ⟨h1, _, _, _⟩ := appendAll_spec _ _ _ hacc
+  unfold Sterile.sterile
+  rw [hasm]
+  unfold assemble at hasm ⊢
+  split at hasm
+  · rename_i hh
+    cases hb : asmBody s.pkt.dgrams.length 1 s.pkt.dgrams with
+    | none => simp [hb] at hasm
+    | some body =>
+      simp only [hb, Option.map_some, Option.some.injEq] at hasm
+      subst hasm
+      have hl : (hdrBytes s.pkt.size index et).length = PACKET_HEADER := by simp [hdrBytes, hP]
+      rw [h1] at hb
+      obtain ⟨b', hb1, hb2⟩ := sterilize_gen _ ops 1 (hdrBytes s.pkt.size index et) (padding s.pkt.size) body hb
+      have hn : (neutral ops).length = (ops.map (·.2)).length := by simp [neutral]
+      rw [hl] at hb2
+      refine ⟨_, rfl, ?_⟩
+      simp only [hh, ↓reduceIte, hn, hb1, Option.map_some, hotf, hb2]
+  · cases hasm
+
+theorem getElem?_sterilize (otf : List (Nat × Nat × Nat)) (bs : List UInt8) (i : Nat) :
+    (sterilize otf bs)[i]? =
+      if (∃ e ∈ otf, e.1 = i) ∧ i < bs.length then some (UInt8.ofNat cmd_NOP) else bs[i]? := by
+  unfold sterilize
+  induction otf generalizing bs with
+  | nil => simp
+  | cons e otf ih =>
+    simp only [List.foldl_cons]
+    rw [ih]
+    simp only [List.length_set, List.getElem?_set, List.mem_cons, exists_eq_or_imp]
+    by_cases h1 : e.1 = i <;> by_cases h2 : i < bs.length <;> by_cases h3 : (∃ a ∈ otf, a.1 = i) <;> simp [h1, h2, h3]
+    all_goals (simp [List.getElem?_eq_none (Nat.le_of_not_lt h2)])
+
+/-- byte by byte: the sterile frame equals the assembled one except at the first byte (the
+command) of each writer datagram, which is NOP -/
+theorem sterile_diff (ops : List (Bool × Dgram)) (s : Sterile) (index et : Int) (bs : List UInt8)
+    (h : Sterile.appendAll Sterile.empty ops = some s) (hasm : assemble s.pkt index et = some bs) :
+    ∃ st, s.sterile index et = some st ∧ st.length = bs.length ∧
+      ∀ i, st[i]? = if (∃ e ∈ wpos PACKET_HEADER ops, e.1 = i) ∧ i < bs.length
+                    then some (UInt8.ofNat cmd_NOP) else bs[i]? := by
+  obtain ⟨_, hotf, _⟩ := sterile_spec ops s h
+  refine ⟨sterilize s.onTheFly bs, by simp [Sterile.sterile, hasm], ?_, ?_⟩
+  · have : ∀ (otf : List (Nat × Nat × Nat)) (b : List UInt8), (sterilize otf b).length = b.length := by
+      intro otf
+      induction otf with
+      | nil => intro b; rfl
+      | cons e otf ih => intro b; simp only [sterilize, List.foldl_cons] at ih ⊢; rw [ih]; simp
+    exact this _ _
+  · intro i; rw [getElem?_sterilize, hotf]
+
+/-- the independent parser reads the sterile frame as the same datagrams with NOP as the
+command of the writers (non-empty sequences; the empty one is the known finding) -/
+theorem sterile_parse_partial (ops : List (Bool × Dgram)) (s : Sterile) (index et : Int) (bs : List UInt8)
+    (h : Sterile.appendAll Sterile.empty ops = some s) (hne : ops ≠ [])
+    (hasm : assemble s.pkt index et = some bs) :
+    ∃ st, s.sterile index et = some st ∧
+      parseFrame st = some (PFrame.mk (PACKET_HEADER - 2 + bodySize (ops.map (·.2))) 0 1
+        (expect true (idDgram index et) :: expectList (neutral ops)) (padding s.pkt.size)) := by
+  obtain ⟨st, h1, h2⟩ := sterile_bytes ops s index et bs h hasm
+  obtain ⟨⟨ps, hacc⟩, _, _⟩ := sterile_spec ops s h
+  obtain ⟨_, hv, _, _⟩ := appendAll_spec _ _ _ hacc
+  obtain ⟨i1, _, _, _⟩ := appendAll_gen _ _ _ _ hacc
+  simp only [Packet.empty, List.nil_append] at i1
+  have hv' : Valid ⟨neutral ops, s.pkt.size⟩ := by
+    refine ⟨?_, hv.2⟩
+    simp only [neutral_bodySize]
+    rw [hv.1, i1]
+  have := parse_assemble_valid ⟨neutral ops, s.pkt.size⟩ index et st hv'
+    (by cases ops with
+        | nil => exact absurd rfl hne
+        | cons o os => simp [neutral]) h2
+  simp only [neutral_bodySize] at this
+  exact ⟨st, h1, this⟩
+
+theorem cpos_eq (base : Nat) (ops : List (Bool × Dgram)) :
+    cpos base ops = ((ops.map (·.2)).zip (offsets base (ops.map (·.2)))).map (fun x => (x.2.2, x.1.wkc)) := by
+  induction ops generalizing base with
+  | nil => rfl
+  | cons o ops ih =>
+    have hT := hT
+    simp only [cpos, List.map_cons, offsets, List.zip_cons_cons, ih]
+    congr 2
+    simp only [dgSize]
+    omega
+
+/-- every entry of `counters` is (position of a datagram's working counter in the frame,
+its preset): the two bytes there are the preset, little endian -/
+theorem counters_exact (ops : List (Bool × Dgram)) (s : Sterile) (index et : Int) (bs : List UInt8)
+    (h : Sterile.appendAll Sterile.empty ops = some s) (hasm : assemble s.pkt index et = some bs) :
+    s.counters.length = ops.length ∧
+    ∀ e ∈ s.counters, slice bs e.1 (e.1 + DATAGRAM_TAIL) = encLE 2 e.2.toNat := by
+  obtain ⟨⟨ps, hacc⟩, _, hc⟩ := sterile_spec ops s h
+  obtain ⟨_, _, hps, _⟩ := appendAll_spec _ _ _ hacc
+  obtain ⟨hlen, hpos⟩ := positions_exact _ _ _ index et bs hacc hasm
+  rw [hc, cpos_eq]
+  refine ⟨by simp [offsets_length], ?_⟩
+  intro e he
+  simp only [List.mem_map] at he
+  obtain ⟨x, hx, rfl⟩ := he
+  rw [← hps] at hx
+  exact (hpos x hx).2.1
+
+/-! ### which sequences are accepted -/
+
+theorem appendAll_isSome_gen (p : Packet) (ds : List Dgram) :
+    (appendAll p ds).isSome = true ↔
+      ds = [] ∨ (p.size + bodySize ds ≤ MAXSIZE ∧ p.dgrams.length + ds.length ≤ MAX_DATAGRAMS) := by
+  induction ds generalizing p with
+  | nil => simp [appendAll]
+  | cons d ds ih =>
+    simp only [reduceCtorEq, false_or, bodySize_cons, List.length_cons]
+    unfold appendAll
+    cases hap : append p d with
+    | none =>
+      have := (reject_iff p d).1 hap
+      simp only [dgSize]
+      simp
+      omega
+    | some r =>
+      obtain ⟨p', pos⟩ := r
+      obtain ⟨h1, h2, rfl, rfl⟩ := (append_some _ _ _ _).1 hap
+      have ih' := ih ⟨p.dgrams ++ [d], p.size + dgSize d⟩
+      cases hrec : appendAll ⟨p.dgrams ++ [d], p.size + dgSize d⟩ ds with
+      | none =>
+        rw [hrec] at ih'
+        simp only [Option.isSome_none, Bool.false_eq_true, false_iff, not_or, not_and, List.length_append,
+          List.length_cons, List.length_nil] at ih'
+        simp only [hrec, Option.isSome_none, Bool.false_eq_true, false_iff]
+        rintro ⟨a, b⟩
+        exact ih'.2 (by omega) (by omega)
+      | some r2 =>
+        rw [hrec] at ih'
+        simp only [Option.isSome_some, true_iff, List.length_append, List.length_cons, List.length_nil] at ih'
+        obtain ⟨q, ps⟩ := r2
+        simp only [hrec, Option.isSome_some, true_iff]
+        rcases ih' with rfl | ih'
+        · simp; omega
+        · omega
+
+/-- a whole sequence is accepted exactly when it fits: total size within MAXSIZE and at most
+MAX_DATAGRAMS datagrams -/
+theorem appendAll_isSome_iff (ds : List Dgram) :
+    (appendAll Packet.empty ds).isSome = true ↔
+      PACKET_HEADER + bodySize ds ≤ MAXSIZE ∧ ds.length ≤ MAX_DATAGRAMS := by
+  rw [appendAll_isSome_gen]
+  simp only [Packet.empty, List.length_nil, Nat.zero_add]
+  constructor
+  · rintro (rfl | h)
+    · exact ⟨by simpa using maxsize_ge, by simp⟩
+    · exact h
+  · exact fun h => Or.inr h
+
+/-! ### non-vacuity: a concrete accepted sequence, assembled and parsed -/
+
+def exDgrams : List Dgram :=
+  [⟨4, [1, 2], 7, .node (-1) 0x130, 0⟩, ⟨11, [9, 8, 7], 0, .logical 0x10800, 3⟩]
+
+example : (appendAll Packet.empty exDgrams).map (·.2) = some [(26, 28), (40, 43)] := by decide
+example : ∃ p ps bs, appendAll Packet.empty exDgrams = some (p, ps) ∧ exDgrams ≠ [] ∧
+    assemble p 2000 0x88A4 = some bs ∧ bs.length = 46 ∧ p.size = 45 := by
+  refine ⟨_, _, _, rfl, by decide, rfl, by decide, by decide⟩
+example : ∃ s bs, Sterile.appendAll Sterile.empty [(true, exDgrams[1]), (false, exDgrams[0])] = some s ∧
+    assemble s.pkt 5 0x88A4 = some bs ∧ s.onTheFly = [(16, 31, 11)] ∧ s.counters = [(29, 3), (43, 0)] := by
+  refine ⟨_, _, rfl, rfl, by decide, by decide⟩
+/-- the size boundary: 1472 data bytes fit an empty packet exactly, 1473 do not; a 16th datagram does not -/
+example : (append Packet.empty ⟨7, List.replicate 1472 0, 0, .node 0 0, 0⟩).isSome = true ∧
+    append Packet.empty ⟨7, List.replicate 1473 0, 0, .node 0 0, 0⟩ = none ∧
+    (appendAll Packet.empty (List.replicate 15 ⟨7, [], 0, .node 0 0, 0⟩)).isSome = true ∧
+    appendAll Packet.empty (List.replicate 16 ⟨7, [], 0, .node 0 0, 0⟩) = none := by
+  refine ⟨by decide +kernel, by decide +kernel, by decide +kernel, by decide +kernel⟩
+
+end Ebv.C11
